@@ -414,7 +414,10 @@ def gen_case(rng, k):
         gkf = gkf2
         # with the default tol-abs the observations whose absolute term is large only because of these coordinates would be
         # removed before the first adjustment and be back in the export (finding F29, corpus/C13/f29-*.gkf): keep them in
-        if re.search(r'tol-abs="[^"]*"', gkf):
+        # (half of the cases; the other half keeps the default and may run into F29)
+        if rng.random() < 0.5:
+            pass
+        elif re.search(r'tol-abs="[^"]*"', gkf):
             gkf = re.sub(r'tol-abs="[^"]*"', 'tol-abs="100000"', gkf, count=1)
         else:
             gkf = gkf.replace("<parameters", '<parameters tol-abs="100000"', 1)
@@ -473,11 +476,19 @@ def removed_for_abs_term(gdir, wd, idx, k):
     m = re.search(r"Outlying absolute terms in project equations\n\*+\n(.*?)\n\s*\nObservations with outlying absolute terms removed", t, re.S)
     if not m:
         return []
-    rows = []
-    for l in m.group(1).splitlines():
+    rows, cur = [], None
+    for l in m.group(1).splitlines():          # an angle takes two lines: "i standpoint target" / "target2 angle value term"
         tk = l.split()
-        if len(tk) >= 5 and tk[0].isdigit():
-            rows.append(" ".join(tk[1:-2]))
+        if not tk or set(l.strip()) <= set("= valuetrmisandpobc"):
+            continue
+        if tk[0].isdigit() and not l.startswith(" " * 12):
+            if cur:
+                rows.append(" ".join(cur[:-2]))
+            cur = tk[1:]
+        elif cur is not None:
+            cur += tk
+    if cur:
+        rows.append(" ".join(cur[:-2]))
     return rows
 
 
